@@ -253,7 +253,10 @@ class PythonASTOptimizer(ast.NodeTransformer):
                 body=_filter_dead_code(new_node.body),
                 handlers=new_node.handlers,
                 orelse=_filter_dead_code(new_node.orelse),
-                finalbody=_filter_dead_code(new_node.finalbody),
+                # A `try` statement must keep either a handler or a `finally` clause, even
+                # if every statement of the `finally` body was eliminated as a no-op.
+                finalbody=_filter_dead_code(new_node.finalbody)
+                or ([] if new_node.handlers else [ast.Pass()]),
             ),
             new_node,
         )
